@@ -41,7 +41,7 @@ CLAIMED = {
              'mode); TLC checks Sound/Functional over all request sequences on an abstract one-token-mutant universe (pre-fix '
              'key and mode-less key as negative controls) and, instantiated with key/source classes measured on the real code '
              '(vf.hash(), compile.generate per mode, shipped freshness), over all sequences of length <= 2 (3 thorough) of an '
-             '85-form universe covering every attribute the property names; every behaviour with a cache hit is replayed on '
+             '95-form universe covering every attribute the property names; every behaviour with a cache hit is replayed on '
              'the real compile_vform (C compiler stubbed); shipped assemblers/genericasm.pxi are regenerated and compared; '
              'source -> module name is checked functional, injective and stable across PYTHONHASHSEED values.',
         note='Universe is the finite list in harness/forms.py; the identity of an assembler is its generated source up to '
